@@ -452,6 +452,14 @@ func (e *Enc) havocAll(s *State) *State {
 		ns.vals[name] = e.lookup(s, name, e.heapSorts[name])
 	}
 	e.lookup(ns, "alloc", SInt)
+	// private closes-only channels are closed only at their own close sites
+	if len(e.privateChans) > 0 {
+		oc := e.lookup(s, "G$closedchans", ArraySort(SInt, SBool))
+		nc := e.lookup(ns, "G$closedchans", ArraySort(SInt, SBool))
+		for _, c := range e.privateChans {
+			e.sc.Assert(Eq(Select(nc, c), Select(oc, c)))
+		}
+	}
 	e.assumeGlobalInvs(ns)
 	return ns
 }
